@@ -217,3 +217,30 @@ func (b *BFS) Search() {
 		b.R.Sample(map[string]any{"search": b.Name, "path": pathString(frontier[len(frontier)/2])})
 	}
 }
+
+// EnumeratePaths runs every operation path of length 1..maxDepth in-process,
+// shortest first per prefix (depth-first over prefixes that are themselves OK):
+// a path is extended only if run reported StOK for it. No states are merged.
+// Returns the number of paths run.
+func EnumeratePaths(numOps, maxDepth int, run func(path []uint16) Status) int64 {
+	var n int64
+	var rec func(prefix []uint16)
+	rec = func(prefix []uint16) {
+		if len(prefix) == maxDepth {
+			return
+		}
+		for op := 0; op < numOps; op++ {
+			p := append(append(make([]uint16, 0, len(prefix)+1), prefix...), uint16(op))
+			st := run(p)
+			if st == StInvalid {
+				continue
+			}
+			n++
+			if st == StOK {
+				rec(p)
+			}
+		}
+	}
+	rec(nil)
+	return n
+}
